@@ -441,6 +441,14 @@ class PoolScn:
                 if impl == "panic":
                     break
             return issues
+        if mode == "churn":
+            for op in c.get("ops") or []:
+                if op.get("panic"):
+                    add("crash", "impl-vs-spec", "%s panicked while requests were running: %s" % (op.get("op"), op.get("panic")))
+            for ex in c.get("execs") or []:
+                if ex.get("panic"):
+                    add("crash", "impl-vs-spec", "request %s (%s) panicked while management operations were running: %s" % (ex.get("id"), ex.get("method"), ex.get("panic")))
+            return issues
         if mode == "upd":
             vers = [sorted((r["name"], r["ver"]) for r in v) for v in (o or {}).get("versions") or []]
             ops = c.get("ops") or []
